@@ -34,6 +34,7 @@ class ExprMixin(ExecBase):
             ty = self.spec.ghosts[name]
             v = fresh(ty, 'ghost_' + name)
             v.loc = ('ghost', name)
+            self.assume_type(v)
             self.cur_ghost()[name] = v
             for s in ([self.entry, self.seg] + self.old_stack):
                 if s is not None:
